@@ -82,6 +82,23 @@ func CallArgs(c ssa.CallInstruction) []ssa.Value {
 	return cc.Args
 }
 
+// missingArg stands for an argument a call does not have (the callee's
+// signature changed): it compares unequal to everything a rule looks for, so
+// the obligation fails instead of the checker panicking.
+var missingArg = ssa.NewConst(nil, types.Typ[types.UntypedNil])
+
+// Arg returns the i-th argument (without receiver) or a placeholder.
+func Arg(c ssa.CallInstruction, i int) ssa.Value {
+	if c == nil {
+		return missingArg
+	}
+	a := CallArgs(c)
+	if i < 0 || i >= len(a) {
+		return missingArg
+	}
+	return a[i]
+}
+
 // CallRecv returns the receiver value of a method call (nil for functions).
 func CallRecv(c ssa.CallInstruction) ssa.Value {
 	cc := c.Common()
